@@ -13,6 +13,10 @@ Section FDnd.
   Definition kron (nb : nat) (A B : nat -> nat -> K) (r c : nat) : K :=
     kmul (A (r / nb) (c / nb)) (B (r mod nb) (c mod nb)).
 
+  (* sp.kron(A, B) with a rectangular B of shape nbr x nbc (n-D space transfer matrices of C11: kron of 1-D interpolation matrices) *)
+  Definition kron_rect (nbr nbc : nat) (A B : nat -> nat -> K) (r c : nat) : K :=
+    kmul (A (r / nbr) (c / nbc)) (B (r mod nbr) (c mod nbc)).
+
   (* dim == 2:  kron(A, eye(n)) + kron(eye(n), A) *)
   Definition fd2_entry (n : nat) (A : nat -> nat -> K) (r c : nat) : K :=
     kadd (kron n A delta r c) (kron n delta A r c).
